@@ -1,5 +1,9 @@
 """C12 — syntax flags accept exactly the documented grammar (float syntax layer; shares streams with C10/C11/C13/C15)."""
+import itertools
+
+import fmtcat_grammar
 import gens_float
+from gens import hexs
 
 ID = "C12"
 LEAN_MODULES = ["LexVerif.Props.C12"]
@@ -38,10 +42,134 @@ def streams(tier, rng, fs, profile):
     for fam, ops in fams.items():
         ops = list(dict.fromkeys(ops))
         out.append(("g-fmt-" + fam, ops))
+    if "format" in fs and ("radix" in fs or "pow2" in fs):
+        out.append(("g-fmt-int", list(dict.fromkeys(int_format_ops(rng, scale)))))
+    if fs == "default":
+        out.append(("fromstr", fromstr_ops(rng, scale)))
     return out
 
 
+# ---------------------------------------------------------------------------------------------------------
+# integer half: `pi` ops over the fmtcat_grammar formats (SPEC column = Spec.Grammar.grammarIntComplete)
+
+def int_format_ops(rng, scale):
+    ops = []
+    for fmt, name in fmtcat_grammar.INT_FORMATS:
+        radix = (fmt >> 104) & 0xFF
+        pre, suf = (fmt >> 88) & 0xFF, (fmt >> 96) & 0xFF
+        a = ["+", "-", "0", "1", "9" if radix == 10 else "f", " "]
+        if radix == 16:
+            a.append("F")
+        for c in (pre, suf):
+            if c:
+                a += [chr(c), chr(c).upper()]
+        strs = [""]
+        for n in range(1, 4):
+            strs += ["".join(t) for t in itertools.product(a, repeat=n)]
+        for _ in range(600 * scale):
+            strs.append("".join(rng.choice(a) for _ in range(rng.randint(4, 8))))
+        big = ["127", "128", "-128", "-129", "255", "256", "0255", "0x7f", "0x80", "0xff", "0x100", "0d127", "0d128",
+               "-0d128", "-0d129", "127h", "128h", "0d127h", "00000000000000000000127", "0d00127", "65535", "65536",
+               "-32768", "-32769", "4294967295", "4294967296", "18446744073709551615", "18446744073709551616",
+               "-9223372036854775808", "-9223372036854775809", "0xffffffffffffffff", "0x10000000000000000"]
+        for s in strs + big:
+            ty = rng.choice(["i8", "u8", "i8", "u8", "i16", "u16", "i32", "u32", "i64", "u64", "i128", "u128"])
+            p = "0" if rng.random() < 0.8 else "1"
+            ops.append("pi %s %x %s %s %s" % (ty, fmt, p, rng.choice("01"), hexs(s.encode("latin-1"))))
+    return ops
+
+
+# ---------------------------------------------------------------------------------------------------------
+# STANDARD vs Rust's own `FromStr` (`str::parse::<f64>()` / `::<i64>()`), default features.
+# The documentation calls STANDARD "identical to the Rust string format". Rust's documented float grammar
+# (core::str::FromStr for f64):   Float ::= Sign? ( 'inf' | 'infinity' | 'nan' | Number ),
+#   Number ::= ( Digit+ | Digit+ '.' Digit* | Digit* '.' Digit+ ) Exp?,  Exp ::= 'e' Sign? Digit+   (all case-insensitive)
+# which is exactly `Spec.parseStdComplete` with the default option strings NaN / inf / infinity. Hence the
+# check is plain equality of acceptance and value on every input; the points where one might expect a
+# difference and there is none are listed so the stream exercises them: ".", "+", "-", "", "1e", "1e+", "e5",
+# ".e5", "+.5", "5.", "+nan", "-nan" (both accept; NaN payload/sign not compared), "+inf", "-Infinity", "infinit",
+# "1_0", " 1", "1 ", "0x10", "1f32", non-UTF-8 bytes (a `&str` cannot hold them; lexical rejects every byte >= 0x80).
+# Integers: Sign? Digit+ with '-' a sign only for signed types ("-0".parse::<u8>() is an error in both), "+" / "-" /
+# "" errors in both, overflow an error in both.
+
+FROMSTR_ALPHA_F = ["+", "-", "0", "1", "9", ".", "e", "E", "n", "a", "N", "i", "f", "I", " ", "_"]
+FROMSTR_FIXED_F = ["", ".", "+", "-", "1e", "1e+", "1e-", "e5", ".e5", "+.5", "-.5", "5.", "5.e3", ".5e3", "+nan", "-nan", "NAN", "nAn",
+                   "+inf", "-inf", "-Infinity", "+INFINITY", "infinit", "infinityy", "in", "na", "1_0", " 1", "1 ", "0x10",
+                   "1f32", "1e400", "-1e400", "1e-400", "-1e-400", "0e999999999999999999999", "1e-999999999999999999999",
+                   "1e999999999999999999999", "00000000000000000000000000000000000000001", "1." + "0" * 400 + "1",
+                   "0." + "0" * 400 + "1e401", "9007199254740993", "9007199254740992.5", "9007199254740993.0000000000000001",
+                   "2.2250738585072011e-308", "4.9406564584124654e-324", "2.4703282292062327e-324", "2.4703282292062328e-324",
+                   "1.7976931348623158e308", "1.7976931348623159e308", "123456789012345678901234567890e-10", "é", "1é",
+                   "١", "nan\u0000", "1\u0000"]
+FROMSTR_FIXED_I = ["", "+", "-", "0", "-0", "+0", "00", "007", "-007", "+-1", "--1", "1-", "1+", " 1", "1 ", "1_0", "0x10", "1e3", "1.0",
+                   "127", "128", "-128", "-129", "255", "256", "-1", "32767", "32768", "-32768", "-32769", "65535", "65536",
+                   "2147483647", "2147483648", "-2147483648", "-2147483649", "4294967295", "4294967296",
+                   "9223372036854775807", "9223372036854775808", "-9223372036854775808", "-9223372036854775809",
+                   "18446744073709551615", "18446744073709551616", "170141183460469231731687303715884105727",
+                   "170141183460469231731687303715884105728", "-170141183460469231731687303715884105728",
+                   "-170141183460469231731687303715884105729", "340282366920938463463374607431768211455",
+                   "340282366920938463463374607431768211456", "0" * 50 + "1", "١"]
+
+
+def fromstr_ops(rng, scale):
+    ops = []
+    strs = list(FROMSTR_FIXED_F)
+    for n in range(1, 4):
+        strs += ["".join(t) for t in itertools.product(FROMSTR_ALPHA_F, repeat=n)]
+    for _ in range(4000 * scale):
+        strs.append("".join(rng.choice(FROMSTR_ALPHA_F) for _ in range(rng.randint(4, 9))))
+    for _ in range(1500 * scale):   # well-formed numbers with many digits / large exponents
+        s = rng.choice(["", "", "+", "-"]) + "".join(rng.choice("0123456789") for _ in range(rng.randint(0, 25)))
+        if rng.random() < 0.6:
+            s += "." + "".join(rng.choice("0123456789") for _ in range(rng.randint(0, 25)))
+        if rng.random() < 0.5:
+            s += rng.choice("eE") + rng.choice(["", "+", "-"]) + str(rng.randint(0, 400))
+        strs.append(s)
+    for s in strs:
+        b = s.encode("utf-8")
+        for ty in (("f64", "f32") if rng.random() < 0.3 else ("f64",)):
+            ops.append("dpf %s 0 %s" % (ty, hexs(b)))
+            ops.append("fs %s %s" % (ty, hexs(b)))
+    for raw in (b"\xff", b"1\xff", b"\xc3", b"nan\xc3\x28", b"\x80"):
+        ops.append("dpf f64 0 %s" % hexs(raw))
+        ops.append("fs f64 %s" % hexs(raw))
+    istrs = list(FROMSTR_FIXED_I)
+    ia = ["+", "-", "0", "1", "9", " ", "a"]
+    for n in range(1, 5):
+        istrs += ["".join(t) for t in itertools.product(ia, repeat=n)]
+    for s in istrs:
+        b = s.encode("utf-8")
+        for ty in ("i8", "u8", "i64", "u64") if len(s) <= 4 else ("i8", "u8", "i16", "u16", "i32", "u32", "i64", "u64", "i128", "u128"):
+            ops.append("dpi %s 0 %s" % (ty, hexs(b)))
+            ops.append("fs %s %s" % (ty, hexs(b)))
+    return ops
+
+
+def post(ctx, bins):
+    """STANDARD (`dpf`/`dpi` complete) against Rust's FromStr (`fs`): same acceptance, same value"""
+    viol = []
+    n = 0
+    for (fs, profile, sname), (ops, impl, drv) in ctx["results"].items():
+        if sname != "fromstr":
+            continue
+        for i in range(0, len(ops) - 1, 2):
+            a, b = ops[i], ops[i + 1]
+            if not (a.startswith("dp") and b.startswith("fs ")):
+                continue
+            n += 1
+            ra, rb = impl[i].split(" "), impl[i + 1].split(" ")
+            same = (ra[0] == "err" and rb[0] == "err") or (ra[0] == "ok" and rb[0] == "ok" and ra[1] == rb[1])
+            if not same:
+                viol.append({"kind": "input", "featureset": fs, "profile": profile, "stream": "fromstr", "op": a,
+                             "implementation": impl[i], "specification": "Rust FromStr: " + impl[i + 1], "model": drv[i][0],
+                             "detail": "STANDARD differs from core::str::FromStr on this input"})
+    ctx["post_evaluations"] = ctx.get("post_evaluations", 0) + n
+    return viol
+
+
 def nontrivial(op, res):
+    if op.startswith("fs "):
+        return False
     t = res.split(" ")
     if t[0] == "ok":
         return True
